@@ -57,6 +57,10 @@ pub trait Prop {
     fn can_be_exhaustive(&self, _tier: Tier) -> bool {
         false
     }
+    /// coverage-guided stage of the thorough tier: (cargo-fuzz target, runs, max_len)
+    fn fuzz_stage(&self) -> Option<(&'static str, u64, usize)> {
+        None
+    }
 }
 
 pub fn all() -> Vec<Box<dyn Prop>> {
